@@ -91,7 +91,7 @@ fn build(ch: &mut Chooser, anchor: (u32, u32), positions: &[(u32, u32)], thoroug
     sheet.preamble = !ch.flag("no-optional-blocks-before-sheetdata");
     if ch.flag("cell-fPhShow-bit-set") { sheet.cell_flags = 1; }
     if sheet.preamble { sheet.preamble_bulk = ch.choose("bulk-in-the-skipped-blocks-before-sheet-data(none,600-area selection,1000-area selection,410 column infos)", 4) as u8; }
-    let book = BBook { sheets: vec![sheet, BSheet::new("Other", vec![BItem::Cell { row: 3, col: 2, style: 0, val: BVal::Real(9.0) }])], sst: SST.iter().map(|s| s.to_string()).collect(), sst_total_refs: [None, Some(1), Some(977)][ch.choose("sst-reference-count(equal to the item count,smaller,larger)", 3)], rel_ids_non_ascii: ch.flag("relationship-ids-with-non-ascii-letters"), ..Default::default() };
+    let book = BBook { sheets: vec![sheet, BSheet::new("Other", vec![BItem::Cell { row: 3, col: 2, style: 0, val: BVal::Real(9.0) }])], sst: SST.iter().map(|s| s.to_string()).collect(), sst_total_refs: [None, Some(1), Some(977)][ch.choose("sst-reference-count(equal to the item count,smaller,larger)", 3)], rel_ids_non_ascii: ch.flag("relationship-ids-with-non-ascii-letters"), sst_extra: if ch.flag("shared-strings-carry-rich-runs-and-phonetic-data") { (0..SST.len()).map(|i| (i % 3, if i % 2 == 1 { Some("ph".to_string()) } else { None })).collect() } else { vec![] }, ..Default::default() };
     let bytes = write(&book, if ch.flag("zip-stored") { Method::Stored } else { Method::Deflated });
     let d = json!({"cells": desc, "stream": items.iter().map(|i| match i { BItem::Cell { row, col, val, .. } => format!("cell({row},{col}) {}", format!("{val:?}").chars().take(24).collect::<String>()), BItem::Raw(t, d) => format!("rec {t:#06x} len {}", d.len()) }).collect::<Vec<_>>()});
     (bytes, exp, d)
@@ -185,6 +185,7 @@ pub fn check(rep: &Report) {
 }
 
 fn check_sheets(rep: &Report) {
+    crate::props::corpus::range_vs_range_ref::<calamine::Xlsb<_>>(rep, &["xlsb"]);
     let t = crate::thorough(&rep.tier);
     rep.rule("sheets with <= k cells in a 2x3 window at anchors {(0,0),(1,126),(1048574,16381)} (quick: every third two-cell position set at the second and third anchor) over ~70 cell kinds = 13 numbers x every exact RK encoding + BrtCellReal, BrtCellIsst/St/Bool/Error (8 codes), BrtFmlaNum/String/Bool/Error; at every gap an ignorable record (BrtCellMeta, BrtValueMeta, FRT block with an unknown future record, unknown ids 0x7F/0x80/0x3FFF) with payload lengths {0,1,127,128,16383,16384} and, separately, records of 2^21-1, 2^21, 2^21+1 and 2^22 bytes (4-byte length prefix) at every gap of a two-cell sheet; blank cells; with/without the optional blocks before BrtBeginSheetData; all choice vectors with <= d deviations; non-trivial = non-default choice; distinct by file bytes");
     rep.assume("RK int with the /100 flag may read as Int or Float (numeric equality required); worksheet_range and worksheet_range_ref must agree");
@@ -234,6 +235,7 @@ fn check_sheets(rep: &Report) {
 pub fn replay(path: &str) -> i32 {
     let Ok(s) = std::fs::read_to_string(path) else { return 2 };
     let v: serde_json::Value = serde_json::from_str(&s).unwrap();
+    if let Some(c) = crate::props::corpus::replay_fixture(&v) { return c; }
     if v.get("big_record_len").is_some() { println!("recorded: {}", v["what"]); return 0; }
     if v.get("large_sst").is_some() { println!("table of {} strings, cells reference {} (see the file in the replay directory)", v["large_sst"], v["indices"]); return 0; }
     let choices: Vec<u32> = v["choices"].as_array().unwrap().iter().map(|x| x.as_u64().unwrap() as u32).collect();
